@@ -229,6 +229,13 @@ def project(pid, pseed, acc, fixed=None):
             acc.count("entry_point_equivalences")
             if other.state != se.state:
                 HUB.violation("C04", "module-object-entry-point-differs", "module-object and path entry points built different architectures under the same options", {"options": case["options"], "mp": mp_rel, "nodes_diff": sorted(other.nodes ^ se.nodes), "imports_diff": sorted(other.imps ^ se.imps)})
+        elif pid == "C08" and not has_excl and "exclusions" not in o and "regex_exclusions" not in o:
+            # the documented DEFAULT exclusion ('*__pycache__*') is in force: what R-SCAN finds wrong about entries whose
+            # path contains that word is a matter of exclusions
+            for c, k, text, detail in se.findings:
+                if c in ("nodes", "edge-missing", "edge-extra") and "__pycache__" in (text + repr(detail)):
+                    HUB.violation("C08", f"default-exclusion:{c}:{k}", text, {"options": case["options"], "mp": mp_rel, "detail": detail})
+            acc.count("scans_under_the_default_exclusion")
         elif pid == "C08" and has_excl:
             o2 = {k: v for k, v in o.items() if k not in ("exclusions", "regex_exclusions")}
             o2.update(exclusions=(), regex_exclusions=())
